@@ -1,7 +1,10 @@
 SPECIFICATION MCSpec
 CONSTANTS FallbackMode = "anyerr"
  FailFast = FALSE
+ CancelMode = "coded"
+ WaitMode = "none"
  MaxP = 2
  MaxB = 1
+ MaxDeaf = 0
 INVARIANTS FallbackRule
 CHECK_DEADLOCK FALSE
